@@ -27,6 +27,11 @@ CLAIMED = {
         "Commit-graph: for every history of 4 commits (all parent sets incl. octopus merges), with the file written by dulwich fresh or stale (history continued afterwards) and with a graft or shallow boundary on any commit, ParentsProvider.get_parents, generation numbers, find_merge_base and can_fast_forward give the same answers as with the commit-graph disabled. EWAH: _encode_ewah_words on every list of 1-4 symbolic 64-bit words decodes (independent reference decoder) to the same words; EWAHBitmap encode/decode round-trips every subset of word-boundary bits. Packed refs: every conditional set/create/delete/read gives the same result and refs with and without pack_refs(all) before it, from every loose/packed/loose-over-packed state. Stale multi-pack-index after repack/gc: decided in C10c. One genuine defect was repaired (fedcf94; the stale-midx one under C10). Not covered: pack bitmaps' reachability answers, acceleration files written by C git, pack-index version differences (C02).",
         "Trusted: z3, ksym, the written-down EWAH word layout.",
     ),
+    "C15": (
+        "symbolic execution of the pure-Python twin (ksym) to derive one witness per feasible path within the bound; each witness is executed natively on both twins, the Rust extension being rebuilt from /repo's crates/ on every run",
+        "For apply_delta (all deltas of 0..5 bytes over two base lengths, and size headers of up to 11 bytes), parse_tree (0..4 symbolic bytes + well-formed rest, strict on/off; 5-6 thorough), sorted_tree_items (pairs of names of 1-2 bytes, any 16-bit modes, both orders), bisect_find_sha (tables of 1..4 names, all ranges), _is_tree (any 32-bit mode/None), _merge_entries (trees of 1-2 symbolic names) and _count_blocks (blobs from 7 line kinds incl. lone CR, 4 chunkings): on one solver-derived witness for every feasible path of the Python twin, both implementations return the same value or both fail, the Rust side never panics, and for create_delta all four encoder/decoder pairings reproduce the target. This level is weaker than the other checks: it is exhaustive over the Python twin's paths, not over the Rust twin's own case splits (no Rust symbolic engine is installed; a MIR front-end was probed for two leaf functions only, see DESIGN.md). Four genuine defects found by this check were repaired (Rust panic on long size headers, truncated-insert divergence, up-front allocation, mode-parsing divergence).",
+        "Trusted: z3, ksym, cargo/rustc producing the extension from the current sources; equality is judged on observable results (value or exception family; any non-Exception such as PanicException counts as a crash).",
+    ),
     "C16": (
         "bounded symbolic execution of the real check_ref_format (ksym) against a reference model of git check-ref-format, one solver query per path",
         "check_ref_format agrees with git check-ref-format on every byte string of length 1..6 (7-8 thorough) and on every name built around '.lock', '@{', '..', '//' with up to 4 free bytes (names up to 9 bytes). The reference model is validated against the installed git binary (tools/validate_git_models.py). Backend contract: one operation of every kind (conditional/unconditional set, create, delete, symbolic ref, pack_refs) with every argument combination, from every state over {HEAD, refs/heads/a, refs/heads/a/b, refs/tags/t} in which refs are absent/loose/packed/loose-over-packed/symbolic, on the real DiskRefsContainer in a real directory (and DictRefsContainer on direct refs), leaves exactly the result, refs, symrefs the map model predicts, also for a re-opened container, and no lock file; the post-state is again a model state, so by induction sequences of any length over this state space are covered. Three genuine defects found by this check were repaired (fix: d4f5845, af3e34d, a38d673). Reftable/namespaced backends and peeled tags are not covered.",
